@@ -48,7 +48,7 @@ def directed(rng: random.Random) -> dict:
                        "leak_loop", "symbol_kinds", "named_in_named", "macro_local_vs_outer", "shadow_unsized", "block_if_label", "named_in_loop", "named_in_macro",
                        "const_shadowed_by_later_inner", "symbol_kinds_unsized", "parameter_names_at_call_site", "application_expanding_to_nothing", "namespace_reopened", "self_qualified",
                        "same_scope_name_nested_later", "leak_named_scope_in_anonymous", "chain_through_empty_scopes", "assign_in_loop_shadows_outer",
-                       "argument_names_later_nearer_label", "block_argument_defines_name_read_by_body"])
+                       "argument_names_later_nearer_label", "block_argument_defines_name_read_by_body", "exported_member_over_shadowed_name"])
     expect_reject = False
     nop = {"k": "ins", "m": "nop", "shape": "imp", "sz": "", "e": None}
     if kind == "shadow_chain":
@@ -105,6 +105,18 @@ def directed(rng: random.Random) -> dict:
                  {"k": "block", "b": [{"k": "sym", "n": "kk", "e": E(7)}, ref("kk"), {"k": "data", "d": "db", "es": [E("kk")]},
                                       {"k": "block", "b": [ref("kk"), {"k": "assign", "n": "kk", "e": E(9)}, ref("kk")]}, ref("kk")]},
                  ref("kk"), {"k": "data", "d": "db", "es": [E("kk"), E("ss")]}]
+    elif kind == "exported_member_over_shadowed_name":
+        # a member of a named scope defined over a name that the scope itself defines further down (and an outer scope defined before): the
+        # value published as scope.member is the one the member has inside the scope
+        inner_def = [lab("xx")]          # (a label: labels are all known when `=` symbols are evaluated; a later `=` of the same scope is not)
+        members = [{"k": "sym", "n": "firstq", "e": E("xx")}, nop, {"k": "sym", "n": "secondq", "e": E("xx", "+", 1)}] + inner_def + [nop, dl("firstq")]
+        outer_def = rng.choice([[lab("xx"), nop], [{"k": "assign", "n": "xx", "e": E(0x1111)}], [{"k": "sym", "n": "xx", "e": E(0x2222)}]])
+        st = {"k": "scope", "n": "jumpsq", "b": members}
+        if rng.random() < 0.3:
+            st = {"k": "block", "b": [st, dl("jumpsq.firstq")]}
+            body += outer_def + [st, dl("xx")]
+        else:
+            body += outer_def + [st, dl("jumpsq.firstq", "jumpsq.secondq"), dl("xx")]
     elif kind == "argument_names_later_nearer_label":
         # the argument of an application names a label that the application's own block defines further down, while an enclosing scope placed
         # a label of that name before: the argument means the nearest enclosing definition, like any other reference written there
